@@ -373,6 +373,10 @@ def run(ck):
     # "all message lengths 0..144": the senders' length gate admits exactly the lengths that can be sent, the maximum included (R05.2)
     from . import c05
     n_v = c05.validate(ck, agg, net.NetNode(ck, "rf24_network", "RF24Network"))
+    # ... and the limit the gate compares with is 144 again whenever fragmentation is (re-)enabled, 24 when it is disabled (R12.6, shared
+    # with C12: the fragmentation setter scenarios start from both settings)
+    from . import c12
+    c12.move_ctor(ck, agg, net.queue_field(ck.prog))
     # "a frame is its header followed by the unmodified message" on the air: the radio layer loads exactly the bytes it is given when
     # dynamic payloads are on - also while the network layer has auto-ack switched off for a multicast (R01.1 / R01.2, shared with C01)
     from . import link, c13
